@@ -50,6 +50,8 @@ inductive Item where
   | comment (indent : Str) (c : Byte) (text : Str)
   | sect (indent name trail : Str) (tc : Option TrailC)
   | entry (e : EntryI)
+  /-- a line of the keys-only format (no delimiter defined): the whole text is the key -/
+  | keyonly (indent key trail : Str) (tc : Option TrailC)
   deriving DecidableEq, Repr
 
 def TrailC.render : Option TrailC → Str
@@ -72,6 +74,7 @@ def Item.lines : Item → List Str
   | .comment ind c text => [ind ++ c :: text ++ [NL]]
   | .sect ind name trail tc => [ind ++ (LBR :: name ++ RBR :: trail ++ TrailC.render tc) ++ [NL]]
   | .entry e => (e.indent ++ e.body ++ [NL]) :: e.cont.map (fun l => l.render ++ [NL])
+  | .keyonly ind key trail tc => [ind ++ (key ++ trail ++ TrailC.render tc) ++ [NL]]
 
 def renderLines (doc : List Item) : List Str := doc.flatMap Item.lines
 
@@ -108,7 +111,134 @@ def expItem (st : PState) : Item → PState
   | .entry e =>
     let first : PState := storeNew { st with line := st.line + 1, ca := caWith st.ca e.tc } e.key e.expValue.1 e.expValue.2
     e.cont.foldl (fun s l => storeAppend false { s with line := s.line + 1 } l.render) first
+  | .keyonly _ key _ tc => storeNew { st with line := st.line + 1, ca := caWith st.ca tc } key none false
 
 def expDoc (doc : List Item) : PState := doc.foldl expItem {}
+
+/-! ## well-formedness: which items are documents of the conventional grammar for a delimiter / comment set -/
+
+/-- the delimiter / comment sets the theorems are about: any delimiter set without the quote – all
+    blanks, no blank, mixed, or none at all (the keys-only format); which kinds of lines a document may
+    have under a set is part of the items' well-formedness (`EntryI.WF`, `Item.WF`) -/
+structure CfgWF (cfg : Cfg) : Prop where
+  dquote : cfg.delim.contains QUOTE = false
+  noPython : cfg.python = false
+  kq : QUOTE ∉ cfg.comment
+  kd : ∀ c ∈ cfg.comment, cfg.delim.contains c = false
+  kb : ∀ c ∈ cfg.comment, isSpace c = false
+  klbr : LBR ∉ cfg.comment
+  krbr : RBR ∉ cfg.comment
+  k0 : (0 : Byte) ∉ cfg.comment
+
+def blanks (ws : Str) : Prop := ∀ c ∈ ws, isBlank c = true
+def texts (t : Str) : Prop := ∀ c ∈ t, isText c = true
+instance (ws : Str) : Decidable (blanks ws) := by unfold blanks; infer_instance
+instance (t : Str) : Decidable (texts t) := by unfold texts; infer_instance
+
+def TrailC.WF (cfg : Cfg) : Option TrailC → Prop
+  | none => True
+  | some t => t.c ∈ cfg.comment ∧ texts t.text ∧ (∀ k ∈ cfg.comment, k ∉ t.text) ∧ QUOTE ∉ t.text
+
+
+/-- well-formed entry line.  The separator is `ws1 ++ d :: ws2`: blanks, one byte `d`, blanks, where `d`
+    is a delimiter byte – or, when the delimiter set mixes blanks and other bytes, any blank (in that
+    class every blank separates key and value).  In the mixed class a plain value must not start with a
+    delimiter byte (it would be taken for the separator). -/
+structure EntryI.WF (cfg : Cfg) (e : EntryI) : Prop where
+  ind : blanks e.indent
+  keyNe : e.key ≠ []
+  keyCh : ∀ c ∈ e.key, isText c = true ∧ isSpace c = false ∧ cfg.delim.contains c = false ∧ c ∉ cfg.comment ∧ c ≠ QUOTE
+  keyHead : e.key.head? ≠ some LBR
+  ws1 : blanks e.ws1
+  ws2 : blanks e.ws2
+  tws : blanks e.tws
+  dIn : cfg.delim.contains e.d = true ∨ (mixedDelim cfg.delim = true ∧ isBlank e.d = true)
+  dText : isText e.d = true
+  dq : e.d ≠ QUOTE
+  val : match e.value with
+    | .plain v => texts v ∧ (∀ k ∈ cfg.comment, k ∉ v) ∧
+                  (∀ c, v.head? = some c → isSpace c = false ∧ c ≠ QUOTE ∧ (mixedDelim cfg.delim = true → cfg.delim.contains c = false)) ∧
+                  (∀ c, v.getLast? = some c → isSpace c = false)
+    | .quoted q => texts q
+  tc : TrailC.WF cfg e.tc
+
+
+/-- well-formed continuation line: indentation, a text free of delimiter and comment bytes, trailing
+    blanks that are no delimiters (automatic when no delimiter is a blank).  Continuation lines exist
+    only when the delimiter set does not mix blanks and other bytes (`Item.WF`). -/
+structure ContLine.WF (cfg : Cfg) (l : ContLine) : Prop where
+  ind : blanks l.indent
+  indNe : l.indent ≠ []
+  trail : blanks l.trail
+  textNe : l.text ≠ []
+  textCh : ∀ c ∈ l.text, isText c = true ∧ cfg.delim.contains c = false ∧ c ∉ cfg.comment
+  head : ∀ c, l.text.head? = some c → isSpace c = false ∧ c ≠ LBR
+  trailNd : ∀ c ∈ l.trail, cfg.delim.contains c = false
+
+
+/-- items of the conventional grammar -/
+def Item.WF (cfg : Cfg) : Item → Prop
+  | .blank ws => blanks ws
+  | .comment ind c text => blanks ind ∧ c ∈ cfg.comment ∧ texts text
+  | .sect ind name trail tc =>
+      blanks ind ∧ blanks trail ∧ name ≠ [] ∧ (∀ c ∈ name, isText c = true ∧ c ∉ cfg.comment) ∧ TrailC.WF cfg tc
+  | .entry e => e.WF cfg ∧ (∀ l ∈ e.cont, l.WF cfg) ∧ (e.cont ≠ [] → mixedDelim cfg.delim = false)
+  | .keyonly ind key trail tc =>
+      noDelim cfg.delim = true ∧ blanks ind ∧ blanks trail ∧ key ≠ [] ∧
+      (∀ c ∈ key, isText c = true ∧ c ∉ cfg.comment ∧ c ≠ QUOTE) ∧
+      (∀ c, key.head? = some c → isSpace c = false ∧ c ≠ LBR) ∧ (∀ c, key.getLast? = some c → isSpace c = false) ∧
+      TrailC.WF cfg tc
+
+
+/-! ### the predicates are decidable (used by the model driver to tell whether a sampled document
+lies in the domain of the theorems) -/
+
+instance (cfg : Cfg) (tc : Option TrailC) : Decidable (TrailC.WF cfg tc) := by
+  cases tc <;> (unfold TrailC.WF; infer_instance)
+
+/-- the `val` clause of `EntryI.WF` as a predicate on the spelling -/
+def ValSpell.OK (cfg : Cfg) : ValSpell → Prop
+  | .plain v => texts v ∧ (∀ k ∈ cfg.comment, k ∉ v) ∧
+                (∀ c, v.head? = some c → isSpace c = false ∧ c ≠ QUOTE ∧ (mixedDelim cfg.delim = true → cfg.delim.contains c = false)) ∧
+                (∀ c, v.getLast? = some c → isSpace c = false)
+  | .quoted q => texts q
+
+instance (cfg : Cfg) (v : ValSpell) : Decidable (ValSpell.OK cfg v) := by
+  cases v <;> (unfold ValSpell.OK; infer_instance)
+
+instance (cfg : Cfg) (e : EntryI) : Decidable (EntryI.WF cfg e) :=
+  decidable_of_iff
+    (blanks e.indent ∧ e.key ≠ [] ∧
+     (∀ c ∈ e.key, isText c = true ∧ isSpace c = false ∧ cfg.delim.contains c = false ∧ c ∉ cfg.comment ∧ c ≠ QUOTE) ∧
+     e.key.head? ≠ some LBR ∧ blanks e.ws1 ∧ blanks e.ws2 ∧ blanks e.tws ∧
+     (cfg.delim.contains e.d = true ∨ (mixedDelim cfg.delim = true ∧ isBlank e.d = true)) ∧
+     isText e.d = true ∧ e.d ≠ QUOTE ∧ ValSpell.OK cfg e.value ∧ TrailC.WF cfg e.tc)
+    ⟨fun ⟨a, b, c, d, e1, f, g, h, i, j, k, l⟩ =>
+        ⟨a, b, c, d, e1, f, g, h, i, j, (by revert k; cases e.value <;> exact id), l⟩,
+     fun h => ⟨h.ind, h.keyNe, h.keyCh, h.keyHead, h.ws1, h.ws2, h.tws, h.dIn, h.dText, h.dq,
+        (by have := h.val; revert this; cases e.value <;> exact id), h.tc⟩⟩
+
+instance (cfg : Cfg) (l : ContLine) : Decidable (ContLine.WF cfg l) :=
+  decidable_of_iff
+    (blanks l.indent ∧ l.indent ≠ [] ∧ blanks l.trail ∧ l.text ≠ [] ∧
+     (∀ c ∈ l.text, isText c = true ∧ cfg.delim.contains c = false ∧ c ∉ cfg.comment) ∧
+     (∀ c, l.text.head? = some c → isSpace c = false ∧ c ≠ LBR) ∧ (∀ c ∈ l.trail, cfg.delim.contains c = false))
+    ⟨fun ⟨a, b, c, d, e, f, g⟩ => ⟨a, b, c, d, e, f, g⟩,
+     fun h => ⟨h.ind, h.indNe, h.trail, h.textNe, h.textCh, h.head, h.trailNd⟩⟩
+
+instance (cfg : Cfg) (it : Item) : Decidable (Item.WF cfg it) := by
+  cases it <;> (unfold Item.WF; infer_instance)
+
+instance (cfg : Cfg) : Decidable (CfgWF cfg) :=
+  decidable_of_iff
+    (cfg.delim.contains QUOTE = false ∧ cfg.python = false ∧ QUOTE ∉ cfg.comment ∧
+     (∀ c ∈ cfg.comment, cfg.delim.contains c = false) ∧ (∀ c ∈ cfg.comment, isSpace c = false) ∧
+     LBR ∉ cfg.comment ∧ RBR ∉ cfg.comment ∧ (0 : Byte) ∉ cfg.comment)
+    ⟨fun ⟨a, b, c, d, e, f, g, h⟩ => ⟨a, b, c, d, e, f, g, h⟩,
+     fun h => ⟨h.dquote, h.noPython, h.kq, h.kd, h.kb, h.klbr, h.krbr, h.k0⟩⟩
+
+/-- is the document in the domain of the C02 theorem for this delimiter / comment set? -/
+def docInDomain (cfg : Cfg) (doc : List Item) : Bool :=
+  decide (CfgWF cfg) && doc.all (fun it => decide (it.WF cfg))
 
 end Econf
